@@ -4,7 +4,7 @@ import types
 from fractions import Fraction as Fr
 
 from harness import common
-from harness.common import Report, afflit, evaluate_corr, listlit, optlit, proof_gate, ptlit, strlit, zlit
+from harness.common import Report, report_failure, afflit, evaluate_corr, listlit, optlit, proof_gate, ptlit, strlit, zlit
 from harness.pyconv import paint_json, paintlit
 
 IMPORTS = ["Model.Field Model.Affine Model.Color Model.Paint Model.Fixed Model.Bounds Model.ColrSem Generated.Consts Corr.Common Corr.C05"]
@@ -189,6 +189,52 @@ def run(report: Report, n):
         report.violation("default_step", dict(kind="property", upem=bad[0], step=bad[1]))
 
 
+def run_fonts(report, rng):
+    """whole fonts: in process and through the real command line (the step may be given by flag or by file)"""
+    from harness import build, e2e, picture
+
+    H = '<svg xmlns="http://www.w3.org/2000/svg" viewBox="0 0 100 100">'
+    painted = H + '<path d="M12,17 L61,17 L61,73 L12,73 Z" fill="red"/><path d="M40,-30 L70,-30 L55,10 Z" fill="blue"/></svg>'
+    blank = H + "<defs/></svg>"
+    outside = H + '<path d="M150,150 L190,150 L190,190 L150,190 Z" fill="green"/></svg>'
+    srcs = [(build.filename_for((0x1F600 + k,)), t, (0x1F600 + k,)) for k, t in enumerate([painted, blank, outside, painted.replace("red", "#123456")])]
+    plans = []
+    for upem, q in ((1000, None), (1024, None), (1000, 1), (2048, 37), (1024, 64)):
+        plans.append((dict(color_format="glyf_colr_1", upem=upem, ascender=round(upem * 0.8), descender=-round(upem * 0.2), clipbox_quantization=q), None))
+    plans.append((dict(color_format="glyf_colr_1", upem=1024, ascender=820, descender=-204, clipbox_quantization=37), "flag"))
+    plans.append((dict(color_format="cff_colr_1", output_file="Font.otf", upem=2048, ascender=1640, descender=-408, clipbox_quantization=50, clip_to_viewbox=False), "file"))
+    for over, via in plans:
+        case = dict(kind="e2e", config={k: str(v) for k, v in over.items()}, built_by=via or "in process", sources=[s_[1] for s_ in srcs])
+        try:
+            font, cfg, picos, _ = build.build_cli(over, srcs, via) if via else build.build_inprocess(over, srcs)
+        except Exception as ex:
+            case["error"] = f"{type(ex).__name__}: {ex}"[:1500]
+            report_failure(report, "font_build", case)
+            return
+        step = over["clipbox_quantization"] if over.get("clipbox_quantization") else round(over["upem"] * 0.02)
+        clips = font["COLR"].table.ClipList.clips if font["COLR"].table.ClipList else {}
+        probs = []
+        for fn, text, cps in srcs:
+            g = e2e.glyph_for(font, cps)
+            act, p2 = picture.colr_picture(font, g) if g in {r.BaseGlyph for r in font["COLR"].table.BaseGlyphList.BaseGlyphPaintRecord} else ([], [])
+            paints = bool([1 for it, _ in picture.flatten(act) if it[1]])
+            box = clips.get(g)
+            if not paints and box is not None:
+                probs.append(f"{g} paints nothing but has ClipBox ({box.xMin}, {box.yMin}, {box.xMax}, {box.yMax})")
+            if paints and box is None:
+                probs.append(f"{g} paints but has no ClipBox")
+            if box is not None and step > 1 and any(v % step for v in (box.xMin, box.yMin, box.xMax, box.yMax)):
+                probs.append(f"{g}: ClipBox ({box.xMin}, {box.yMin}, {box.xMax}, {box.yMax}) edges are not multiples of the step {step}")
+            if paints:
+                probs += e2e.clip_problems(font, g, act, 2.5)
+            report.count(("font", str(over), via, g), True)
+        report.hist("fonts.built_by", "command line, options by " + via if via else "in process")
+        if probs:
+            case["problems"] = probs[:5]
+            report_failure(report, "font", case)
+            return
+
+
 def main(argv):
     common.setup_env()
     tier = common.tier_from_args(argv)
@@ -202,6 +248,8 @@ def main(argv):
     st = proof_gate(report)
     if common.vo_ok("Corr/C05.v"):
         run(report, 500 if tier == "quick" else 8000)
+    if not report.violations:
+        run_fonts(report, random.Random(report.seed + 5))
     if not st["proof_ok"] and not report.violations:
         report.violation("proof", dict(kind="proof", theorem="Props/C05.v", detail=report.notes.get("proof_failure")), found_input=False)
     report.open_obligations = [
